@@ -509,6 +509,11 @@ pub fn run(out: &mut Out, tier: &str, rng: &mut Rng) {
     let full = gen::tokens_full();
     let red = gen::tokens_reduced();
     let firsts = gen::first_tokens();
+    out.comment("state carried from one call to the next: ordered pairs of the corpus (one case = two calls)");
+    {
+        let c: Vec<Vec<u8>> = crate::langid::par_inputs().into_iter().step_by(if thorough { 1 } else { 3 }).collect();
+        for x in c.iter() { for y in c.iter() { if x != y { out.case("seq_locale", &[x, y], || { let _ = locale(x); locale(y) }); } } }
+    }
     out.comment("non-ASCII look-alikes: one character replaced by one that a Unicode-aware mapping would fold to ASCII");
     for b in gen::LOOKALIKE_BASES.iter() { for s in gen::lookalikes(b) { parse_ops(out, s.as_bytes()); out.case("extmap", &[s.as_bytes()], || extmap(s.as_bytes())); } }
     out.comment("regression corpus (minimised earlier failures), always first");
